@@ -80,6 +80,10 @@ type (
 		orderByDefinition   OrderByDefinition
 		wg                  sync.WaitGroup
 		singletonExecutions map[string]any
+		// results of aggregate calls over the whole row set (no GROUP BY);
+		// unlike singletonExecutions they belong to one row set, so a copy
+		// made for an inner dimension starts with none
+		aggregateResults map[string]any
 		postProcessors      []func() error
 		dual                bool
 		options             *Options
@@ -1663,7 +1667,10 @@ func AggrFunExpr(query *Query, current Map, expr sqlparser.AggrFunc, opts ...Exp
 	}
 	// the memo is per aggregate call (function and arguments), not per function name
 	name = sqlparser.String(expr)
-	rs, ok := query.singletonExecutions[name]
+	if query.aggregateResults == nil {
+		query.aggregateResults = make(map[string]any)
+	}
+	rs, ok := query.aggregateResults[name]
 	if !ok {
 		slice, err := AggrFuncArgReader(query, map[string]any{"*": query.rows()}, sqlparser.Exprs{Exprs: expr.GetArgs()})
 		if err != nil {
@@ -1673,7 +1680,7 @@ func AggrFunExpr(query *Query, current Map, expr sqlparser.AggrFunc, opts ...Exp
 		if err != nil {
 			return nil, err
 		}
-		query.singletonExecutions[name] = result
+		query.aggregateResults[name] = result
 		return result, nil
 	}
 	return rs, nil
@@ -1829,8 +1836,17 @@ func IsSelectAllAggregate(query *Query) bool {
 
 func ExecSelect(query *Query, current []any) ([]any, error) {
 	copy := make([]any, 0)
+	// the results of inner dimensions have been aggregated by the exec of
+	// their own copy of the query; there is nothing to aggregate over them
+	nested := false
+	for _, current := range current {
+		if _, ok := current.([]any); ok {
+			nested = true
+			break
+		}
+	}
 	// with GROUP BY even an all-aggregate select list yields one row per group
-	if len(query.groupDefinition) == 0 && IsSelectAllAggregate(query) {
+	if len(query.groupDefinition) == 0 && !nested && IsSelectAllAggregate(query) {
 		rs, err := SelectExpr(query, nil, &query.selectDefinition)
 		if err != nil {
 			return nil, err
